@@ -228,7 +228,10 @@ class BaseLoader(ABC):
             if isinstance(data, bytes):
                 # Be sure to specify an (useful) encoding so we don't get
                 # the system default, typically ascii.
-                data = data.decode('utf-8')
+                try:
+                    data = data.decode('utf-8')
+                except UnicodeDecodeError as e:
+                    self._raise_open_error(url, str(e))
             file = StringIO(data)
         return self.createResource(file, url)
 
